@@ -122,6 +122,8 @@ def _pairs(draw, tier):
         s = draw(clean_bases(platform=True))
         pool = {k: T.IRRELEVANT[k] for k in ["scheme", "userinfo", "default-port", "host-case", "tracking-items", "permute-query", "hex-case", "subdomain"]}
         spool = T.STRING_LEVEL_IRRELEVANT
+    pool = dict(pool)
+    pool["empty-query-item"] = T.t_empty_query_item   # a collision *candidate*: the premise decides
     names = draw(st.lists(st.sampled_from(list(pool) + list(spool)), min_size=1, max_size=3, unique=True))
     names = [x for x in names if x in pool] + [x for x in names if x in spool]
     cur, applied = s, []
